@@ -20,7 +20,9 @@ pub enum BCall {
     Obs { rows: usize, cols: usize },
     Weights {
         len: usize,
-        /// value pattern: 0 ramp 0.5+0.25 i, 1 all ones, 2 all 2.0, 3 ramp starting at zero, 4 alternating sign
+        /// value pattern: 0 ramp 0.5+0.25 i, 1 all ones, 2 all 2.0, 3 ramp starting at zero, 4 alternating sign,
+        /// 5 tiny (1e-10 x ramp: every singular value of W*Phi is far below machine epsilon, so that a
+        /// supplied threshold of 0 or a subnormal one is observable)
         #[serde(default)]
         kind: u8,
     },
@@ -53,6 +55,7 @@ fn weight_value(kind: u8, i: usize) -> f64 {
         2 => 2.0,
         3 => 0.25 * i as f64,
         4 => (0.5 + 0.25 * i as f64) * if i % 2 == 0 { 1.0 } else { -1.0 },
+        5 => 1e-10 * (0.5 + 0.25 * i as f64),
         _ => 0.5 + 0.25 * i as f64,
     }
 }
@@ -247,8 +250,8 @@ fn enumerate_grid() -> (String, Box<dyn Iterator<Item = C18Case> + Send>) {
     for l in 0..=4usize {
         for rows in 0..=4usize {
             for cols in 0..=2usize {
-                for wsel in 0..9u8 {
-                    for esel in 0..3u8 {
+                for wsel in 0..13u8 {
+                    for esel in 0..5u8 {
                         for ctor in 0..4u8 {
                             if ctor < 2 && cols != 1 {
                                 continue;
@@ -256,8 +259,9 @@ fn enumerate_grid() -> (String, Box<dyn Iterator<Item = C18Case> + Send>) {
                             for order in 0..4u8 {
                                 let obs = BCall::Obs { rows, cols };
                                 // wsel 5..8: the same lengths with all-ones weights
-                                let wkind = if wsel >= 5 { 1 } else { 0 };
-                                let w = match if wsel >= 5 { wsel - 4 } else { wsel } {
+                                // wsel 9..12: the same lengths with tiny weights
+                                let wkind = if wsel >= 9 { 5 } else if wsel >= 5 { 1 } else { 0 };
+                                let w = match if wsel >= 9 { wsel - 8 } else if wsel >= 5 { wsel - 4 } else { wsel } {
                                     0 => None,
                                     1 => Some(rows),
                                     2 => Some(rows + 1),
@@ -268,7 +272,9 @@ fn enumerate_grid() -> (String, Box<dyn Iterator<Item = C18Case> + Send>) {
                                 let e = match esel {
                                     0 => None,
                                     1 => Some(BCall::Eps(1e-3)),
-                                    _ => Some(BCall::Eps(-1e-3)),
+                                    2 => Some(BCall::Eps(-1e-3)),
+                                    3 => Some(BCall::Eps(0.0)),
+                                    _ => Some(BCall::Eps(-1e-310)),
                                 };
                                 let mut calls: Vec<BCall> = vec![];
                                 match order {
@@ -305,7 +311,7 @@ fn enumerate_grid() -> (String, Box<dyn Iterator<Item = C18Case> + Send>) {
             }
         }
     }
-    let desc = "full grid: model output length 0..4 x observation rows 0..4 x columns 0..2 (multi-rhs; single-rhs constructors take vectors) x weights {none, rows, rows+1, rows-1, 0 entries; ramp values and all ones} x epsilon {none, +1e-3, -1e-3} x 4 constructors x 4 call orders (obs first, obs last, with overwritten earlier calls, without observations)".to_string();
+    let desc = "full grid: model output length 0..4 x observation rows 0..4 x columns 0..2 (multi-rhs; single-rhs constructors take vectors) x weights {none, rows, rows+1, rows-1, 0 entries; ramp values, all ones, tiny} x epsilon {none, +1e-3, -1e-3, 0, -1e-310} x 4 constructors x 4 call orders (obs first, obs last, with overwritten earlier calls, without observations)".to_string();
     (desc, Box::new(v.into_iter()))
 }
 
@@ -331,6 +337,12 @@ impl Property for C18 {
     fn enumerate(&self, _tier: Tier) -> Option<(String, Box<dyn Iterator<Item = C18Case> + Send>)> {
         Some(enumerate_grid())
     }
+    /// the same search again, a fifth of the cases, in the overflow-checked build of the harness
+    /// (debug assertions and overflow checks of the library on): "never a panic" is a claim about
+    /// every build profile
+    fn epilogue(&self, tier: Tier, seed: u64, _counters: &std::collections::BTreeMap<String, u64>, extra: &mut std::collections::BTreeMap<String, serde_json::Value>) -> Result<(), (Fail, serde_json::Value)> {
+        crate::engine::run_checked_profile_n("C18", tier, seed, Some((self.cases(tier) / 5).max(50)), extra)
+    }
     fn check(&self, case: &C18Case) -> Check {
         if case.f32 {
             run::<f32>(case)
@@ -353,8 +365,8 @@ pub fn c18_from_raw(l: usize, ctor: u8, raw: Vec<(u16, u16, u16)>, flags: u16) -
                             let rows = if a % 2 == 0 { l } else { pick(a, 7) };
                             BCall::Obs { rows, cols: if b % 3 == 0 { pick(b, 5) } else { 1 + pick(b, 4) } }
                         }
-                        2 | 3 => BCall::Weights { len: if a % 2 == 0 { l } else { pick(a, 8) }, kind: [0u8, 0, 1, 1, 2, 3, 4, 1][pick(b, 8)] },
-                        _ => BCall::Eps([1e-3, -1e-3, 1e-9, -1e-12, 0.0, 2e-6, -5e-7][pick(a, 7)]),
+                        2 | 3 => BCall::Weights { len: if a % 2 == 0 { l } else { pick(a, 8) }, kind: [0u8, 0, 1, 1, 2, 3, 4, 5][pick(b, 8)] },
+                        _ => BCall::Eps([1e-3, -1e-3, 1e-9, -1e-12, 0.0, 2e-6, -5e-7, -0.0, 1e-310, -1e-310, 1e-30, -1e-25][pick(a, 12)]),
                     })
                     .collect();
                 C18Case { l, ctor, calls, hand: flags & 1 == 1, f32: flags & 6 == 6, near_collision: flags & 8 == 8 }
